@@ -81,6 +81,26 @@ NEEDS = {
  "C18d-closure-only-for-grown": ("C18", ["C18", "C11"], "identity chain of three levels over three modules, the last loaded after a Process"),
  "C19d-minmax-writes-builtin-range": ("C19", ["C19"], "min/max keyword restriction on a built-in range resolved in two goroutines: write into the package-level range array"),
  "C20d-trimsuffix-by-content": ("C20", ["C20"], "a chunk that ends in the middle of a line with bytes equal to the prefix"),
+ "C01e-unhashable-error-in-geterrors": ("C01", ["C01", "C08"], "a deviate statement carrying a type that does not resolve: the error value is an unhashable struct and GetErrors uses errors as map keys"),
+ "C02e-latin1-byte-append": ("C02", ["C02"], "a character U+0080..U+00FF inside a double-quoted string is appended as one raw byte"),
+ "C03e-statement-keyword-accepted": ("C03", ["C03"], "a substatement spelled Statement: accepted, overwrites the node's back reference"),
+ "C04e-bounds-error-after-last-sweep": ("C04", ["C04"], "a deviation that makes min-elements exceed max-elements: the error is recorded on the node after the last sweep"),
+ "C05e-pattern-append-shared-array": ("C05", ["C05", "C09"], "typedefs derived from a typedef with 3 or 5 accumulated patterns, each adding one: they write into one backing array, the last resolved wins"),
+ "C06e-deviate-type-written-in-place": ("C06", ["C06", "C08"], "deviate replace type on one instance of a grouping leaf overwrites the YangType all copies share"),
+ "C07e-merge-skips-same-node-collision": ("C07", ["C07"], "an augment whose body uses a grouping the target already uses: the colliding nodes are dropped silently"),
+ "C08e-elements-default-means-absent": ("C08", ["C08"], "deviate with max-elements unbounded or min-elements 0: treated as not given"),
+ "C09e-resolving-set-by-bare-name": ("C09", ["C09", "C05"], "a valid chain through two different typedefs of the same name (across imports or by shadowing), depending on dictionary order"),
+ "C10e-decimal64-table-fd18-nil": ("C10", ["C10"], "decimal64 with fraction-digits exactly 18: empty base range"),
+ "C11e-findexternal-cache-by-own-prefix": ("C11", ["C09"], "two importers with the same own prefix binding one import prefix to different modules with same-named identityref typedefs (a typedef lookup: C09's domain; C11's own space has no such pair)"),
+ "C12e-instantiating-module-outermost": ("C12", ["C12", "C07"], "an augment into a subtree grafted by another module's augment: InstantiatingModule returns the outer module"),
+ "C13e-submodule-own-includes-skipped": ("C13", ["C13"], "a submodule using a typedef of a submodule only it includes"),
+ "C14e-bitfield-max-off-by-one": ("C14", ["C14"], "bit position 4294967296, explicit or assigned after 4294967295"),
+ "C15e-integral-fastpath-wrap": ("C15", ["C15", "C10"], "ParseDecimal of a literal without a point whose scaled value wraps around 2^64 to something below 2^63"),
+ "C16e-findexternal-root-source": ("C16", ["C16"], "unknown type or prefix with a foreign prefix: reported at the module statement"),
+ "C17e-empty-action-flags-parent-rpc": ("C17", ["C17"], "a container holding an action without input and output: lookups below the container fail"),
+ "C18e-live-typedict-on-failed-build": ("C18", ["C18"], "a rejected text with a nested typedef that does not resolve, built before the failure point"),
+ "C19e-findmodule-writes-import-module": ("C19", ["C19"], "concurrent readers resolving an import prefix write Import.Module on the shared AST"),
+ "C20e-prefix-subtract-after-partial-update": ("C20", ["C20"], "a short write in a call whose line state before the chunk differs from the state after it"),
  "C20b-empty-write-clears-partial": ("C20", ["C20"], "zero-length Write in the middle of a line clears the mid-line flag: the next Write gets a prefix inside the line"),
  "C20-early-out-continued-line": ("C20", ["C20"], "short write of 1..len(prefix) bytes on a Write that continues a partial line returns 0 although caller bytes were written"),
 }
